@@ -18,7 +18,7 @@ def rule_cases(seed, n):
     return gen.future_sign_cases() + [gen.gen_core_prog(r, ATOMS2 if i % 3 else ATOMS3, True, neg_atoms=(i % 5 == 0)) for i in range(n)]
 
 def correspondence(ctx):
-    cases = rule_cases(ctx.seed * 23 + 1, 120 if ctx.tier == "quick" else 1500)
+    cases = rule_cases(ctx.seed * 23 + 1, 300 if ctx.tier == "quick" else 1500)
     H = 2 if ctx.tier == "quick" else 3
     st, dis = rules_check.run_corr(ctx, cases, H)
     st["sample"] = {"program": tl.render_prog(cases[-1])}
@@ -38,7 +38,7 @@ def _mon_chunk(args):
 
 def search(ctx, deep):
     r = random.Random(ctx.seed * 29 + 4)
-    n = (80 if ctx.tier == "quick" else 800) * (3 if deep else 1)
+    n = (240 if ctx.tier == "quick" else 800) * (3 if deep else 1)
     texts = [tl.render_prog(c) for c in rule_cases(ctx.seed * 31 + 2, n)]
     # formulas in bodies and heads
     for i in range(n // 2):
